@@ -8,6 +8,7 @@ _SETUP = False
 CRASHES = []
 TIMEOUT_S = 0.25
 HANG_S = 30.0
+ORIG_JOIN_INTERVAL = None
 
 
 def setup():
@@ -18,6 +19,8 @@ def setup():
   logging.disable(logging.CRITICAL)
   from openhtf.core import phase_executor
   from openhtf.util import console_output
+  global ORIG_JOIN_INTERVAL
+  ORIG_JOIN_INTERVAL = phase_executor._JOIN_TRY_INTERVAL_SECONDS
   phase_executor._JOIN_TRY_INTERVAL_SECONDS = 0.004
   # banner printing to stdout would garble the check's own output
   console_output.banner_print = lambda *a, **k: None
@@ -292,12 +295,11 @@ def make_env():
   return {'htf': htf, 'diagnoses_lib': diagnoses_lib, 'phase_branches': phase_branches, 'diag_enum': diag_enum}
 
 
-def run_test_case(case, plugs_factory=None, callbacks=None):
-  """Runs one case; returns dict(tokens=[...], ret=bool, crashes=[...], record=TestRecord)."""
+def build_test(case, callbacks=None):
+  """Builds the real htf.Test of a case. Returns dict(test, ctx, env, recs, cb_records, start)."""
   setup()
   env = make_env()
   htf, diagnoses_lib = env['htf'], env['diagnoses_lib']
-  from openhtf.util import configuration
   ctx = Ctx()
   if case.get('plugs') is not None:
     env['plugs'] = PlugsSupport(ctx, env, case['plugs'])
@@ -333,6 +335,14 @@ def run_test_case(case, plugs_factory=None, callbacks=None):
   start = None
   if case.get('start') is not None:
     start = build_phase(case['start'], ctx, htf, env['diag_enum'], diagnoses_lib, env.get('plugs'))
+  return {'test': test, 'ctx': ctx, 'env': env, 'recs': recs, 'cb_records': cb_records, 'start': start}
+
+
+def run_test_case(case, plugs_factory=None, callbacks=None):
+  """Runs one case; returns dict(tokens=[...], ret=bool, crashes=[...], record=TestRecord)."""
+  from openhtf.util import configuration
+  b = build_test(case, callbacks)
+  test, ctx, recs, cb_records, start = b['test'], b['ctx'], b['recs'], b['cb_records'], b['start']
   del CRASHES[:]
   conf = configuration.CONF
   saved = dict(conf._loaded_values)
